@@ -30,6 +30,9 @@ void vs_set_signal_handler(void (*fn)(int));
 /* signals chosen while the thread holds m stay pending until it unlocks m */
 void vs_defer_signals_while_holding(pthread_mutex_t *m);
 void vs_defer_signals_only_if(int (*pred)(int t));
+void vs_freeze_lib_threads(void);
+extern int vs_end_with_apps;
+int vs_is_app(int t);
 extern unsigned long vs_create_fail_mask; /* bit k: the k-th pthread_create of the run fails with EAGAIN */
 extern int vs_tso;        /* 1: simulate store buffers (default), 0: SC */
 extern int vs_strict;     /* 1: RMW/fence/lock/futex enabled only on an empty own buffer (default) */
